@@ -1167,6 +1167,13 @@ static Boolean DecodeIntelPseudo_LayoutMult(
         }
     }
 
+    /* the Put.../Replicate functions only exist for 8- and 16-bit granular segments */
+
+    else if (!pCtx->Replicate) {
+        WrStrErrorPos(ErrNum_NotInThisSegment, pArg);
+        Result = False;
+    }
+
     else {
         Result = SetDSFlag(pCtx, DSConstant) && pCtx->LayoutFunc(pArg, pCtx);
     }
